@@ -54,13 +54,55 @@ class Resolver:
     def resolve(self, qname, rdtype="A", *a, **kw):
         return self._answer(qname, rdtype, a, kw)
 
+    latency_s = 0.0
+
     async def aresolve(self, qname, rdtype="A", *a, **kw):
+        if self.latency_s:
+            import asyncio
+
+            await asyncio.sleep(self.latency_s)  # (virtual time: lookups issued together are in flight together)
         return self._answer(qname, rdtype, a, kw)
+
+
+def run_burst(case) -> dict:
+    """["burst", record indices, domain, n1, n2]: n1 async lookups in flight at once on one event loop, then n2 more on a NEW event
+    loop of the same process (a second asyncio.run); every one of them must return the best record."""
+    import asyncio
+
+    import dpapi_ng._dns as ddns
+
+    _, idxs, domain, n1, n2 = case
+    records = [RECORD_TYPES[i] for i in idxs]
+    world = W.World(len(idxs) + n1)
+    res = Resolver(world, records)
+    res.latency_s = 0.01
+    best_prio = min(r[0] for r in records)
+    best_weight = max(r[1] for r in records if r[0] == best_prio)
+    viol = None
+    with world.installed(resolver=res, patch_entropy=False):
+        for burst, n in enumerate((n1, n2)):
+            async def many(n=n):
+                return await asyncio.gather(*(ddns.async_lookup_dc(domain) for _ in range(n)), return_exceptions=True)
+
+            out = drive.classify(lambda: drive.run_async(world, many))
+            vals = out.value if out.kind == "ok" else [out.exc] * n
+            for k, v in enumerate(vals):
+                if isinstance(v, BaseException) or (v.priority, v.weight) != (best_prio, best_weight):
+                    viol = common.violation("C20", "lookup-failed" if isinstance(v, BaseException) else "selection", "async-burst", "second-event-loop" if burst else "", "", "",
+                                            f"lookup {k + 1} of {n} concurrent lookups in event loop #{burst + 1} of the process gave {v!r}; records={records} domain={domain!r}")
+                    break
+            if viol:
+                break
+    return {"viol": viol, "digest": world.digest(), "key": common.key_hash(case), "fired": {"dns": world.stats.get("dns", 0)},
+            "probes": {"async_bursts": 1}, "vtime_ns": world.stats.get("vtime_ns", 0)}
 
 
 def run(case) -> dict:
     """case: [records as indices into RECORD_TYPES, domain or None]"""
     import dpapi_ng._dns as ddns
+
+    if case[0] == "burst":
+        return run_burst(case)
 
     idxs, domain = case[:2]
     hosts = case[2] if len(case) > 2 and case[2] else None      # host id per record (repeated targets)
@@ -141,12 +183,13 @@ class C20(common.Check):
             "priority {0,1,2} x weight {0,1,2} x target spelling {absolute with trailing dot, relative} are enumerated (111150 sequences; "
             "length 5 = 1.9 M exhaustively in thorough, sampled in quick), each through lookup_dc and async_lookup_dc; answers of 2..3 records in which "
             "several records name the same host (all host assignments); resolver faults (the first 1..2 queries time out or return NXDOMAIN and "
-            "the caller repeats the lookup in the same process); the same name looked up twice while the answer set changed in between. Non-trivial = more than "
+            "the caller repeats the lookup in the same process); the same name looked up twice while the answer set changed in between; bursts of 2..9 async lookups in flight at once on one "
+            "event loop and then again on a second event loop of the same process; the client host's own DNS suffix differs from the AD domain. Non-trivial = more than "
             "one record or a trailing-dot target; distinct = distinct (sequence, domain).")
     components = {"selection code": "real (dpapi_ng._dns lookup_dc / async_lookup_dc / _get_highest_answer)", "resolver": "stub node returning real dnspython SRV rdata",
                   "async runtime": "simulated loop"}
     assumptions = ["no DNS wire format is simulated: dnspython is a dependency, not the system under test", "ties between equal (priority, weight) records are not judged beyond sync == async"]
-    required_fired = ("trailing_dot", "relative_target", "ties", "dns_reorder", "repeated_target", "after_resolver_fault", "dns_fault", "after_earlier_lookup")
+    required_fired = ("trailing_dot", "relative_target", "ties", "dns_reorder", "repeated_target", "after_resolver_fault", "dns_fault", "after_earlier_lookup", "async_bursts")
 
     def exhaustive(self, tier):
         return True
@@ -177,6 +220,9 @@ class C20(common.Check):
             a = [rng0.randrange(n) for _ in range(rng0.randint(1, 4))]
             b_ = [rng0.randrange(n) for _ in range(len(a))] if rng0.random() < 0.7 else [rng0.randrange(n) for _ in range(rng0.randint(1, 4))]
             out.append([b_, rng0.choice(("corp.example", None)), None, 0, a])
+        # bursts of concurrent async lookups on one event loop, then again on a second event loop of the same process
+        for _ in range(200 if tier == "quick" else 5000):
+            out.append(["burst", [rng0.randrange(n) for _ in range(rng0.randint(1, 4))], rng0.choice(("corp.example", None)), rng0.randint(2, 9), rng0.randint(2, 9)])
         if tier == "quick":
             rng = prng.stream(seed, "C20")
             for _ in range(20000):
@@ -187,6 +233,8 @@ class C20(common.Check):
         return run(case)
 
     def shrink(self, case):
+        if case[0] == "burst":
+            return
         idxs, dom = case[:2]
         if len(case) > 2:
             return
@@ -198,6 +246,8 @@ class C20(common.Check):
             yield [idxs, ""]
 
     def sample_repr(self, case, res):
+        if case[0] == "burst":
+            return dict(zip(("kind", "records", "domain", "concurrent_lookups_loop_1", "concurrent_lookups_loop_2"), case))
         return {"records_priority_weight_spelling": [RECORD_TYPES[i] for i in case[0]], "domain": case[1], "host_per_record": case[2] if len(case) > 2 else None,
                 "failing_queries_before": case[3] if len(case) > 3 else 0, "earlier_answer_set": [RECORD_TYPES[i] for i in case[4]] if len(case) > 4 else None}
 
